@@ -327,7 +327,9 @@ pub fn run() {
 						for (n, ev) in d.events.iter_mut().enumerate() {
 							if set.contains(&ev.code) {
 								for k in 0..extra {
-									ev.payload.push(fill_byte(Fill::B, n, 200 + k) | 0x80);
+									// a doubled Game End is a verbatim copy: both get the same tail
+									let serial = if ev.code == 0x39 { 0x39 } else { n };
+									ev.payload.push(fill_byte(Fill::B, serial, 200 + k) | 0x80);
 								}
 							}
 						}
